@@ -377,10 +377,13 @@ def run_case(case, ctx):
                             gdf = da.to_geodataframe(cache=False)
                         else:
                             gdf = da.to_geodataframe()
-                        n_expected = len(gdf)
                     else:
                         gdf = tgt.to_geodataframe()
-                        n_expected = len(gdf)
+                    if gdf is None or not hasattr(gdf, "columns"):
+                        fails.append(Failure("exports_detached", f"edit:{what}", "no-frame", f"to_geodataframe returned {type(gdf).__name__}"))
+                        break
+                    n_expected = len(gdf)
+                    if not what.startswith("uxda-gdf"):
                         if what == "gdf-column":
                             gdf["mine"] = 1.0
                         else:
